@@ -45,4 +45,4 @@ def run(ctx):
     ctx.require_obs("scenarios", "tasks_accepted", "tasks_refused", "tasks_throwing", "shutdown_kind_destructor",
                     "shutdown_kind_stop", "shutdown_kind_drain_stop", "shutdown_kind_stop_racing_submitters",
                     "pattern_tight_burst", "pattern_idle_exit_race", "scenarios_reaching_max_threads",
-                    "late_submission_refused_cleanly", "condvar_prepark_delays")
+                    "late_submission_refused_cleanly", "condvar_prepark_delays", "thread_create_delays", "worker_post_unlock_delays")
